@@ -54,7 +54,7 @@ func NewReplicateMetaImpl(store api.ReplicateStore) (*ReplicateMeteImpl, error) 
 }
 
 func (r *ReplicateMeteImpl) Reload() error {
-	metaMsgs, err := r.store.Get(context.Background(), "", true)
+	metaMsgs, err := r.store.Get(context.Background(), KeyPrefix+"/", true)
 	if err != nil {
 		return err
 	}
